@@ -54,7 +54,18 @@ def run(ctx, env):
     n = 0
     guarded_decoders = {}
     guard_bodies = {}
-    for b in bodies.values():
+    def guard_helper(p):
+        """A private helper that performs the contains_key test(s) on behalf of the dispatch function
+        (`fn known_template_kind(&self, id) -> Option<Kind>`): inlined at CFG level into its caller."""
+        hb = prog.bodies.get(p)
+        if hb is None or hb.j.get("pub") or hb.derived or hb.nblocks > 80:
+            return False
+        cs = [c2 for _, _, c2 in hb.calls() if c2 is not None]
+        return any(c2.npath in CONTAINS_KEY for c2 in cs) and not any(c2.local and decoder_of(c2.path) for c2 in cs)
+
+    for b in list(bodies.values()):
+        if any(c is not None and c.local and decoder_of(c.path) and decoder_of(b.path) != decoder_of(c.path) for _, _, c in b.calls()):
+            b = prog.inlined_body(b.path, guard_helper, key="c07") or b
         for blk, t, c in b.calls():
             if c is None or not c.local:
                 continue
@@ -110,17 +121,11 @@ def run(ctx, env):
         guards = [g for g in guards_by_call(an, b, set(CONTAINS_KEY))]
         true_edges = set((sw, tt) for (cb, ce, sw, tt, ff) in guards)
         # region: from every guard's false target, never taking a guard's true edge
+        # (path-sensitive: enum values built on the way — e.g. the `None` a guard helper returns when no test
+        # succeeded — decide the switches that follow)
         region = set()
-        st = [ff for (cb, ce, sw, tt, ff) in guards]
-        while st:
-            x = st.pop()
-            if x in region:
-                continue
-            region.add(x)
-            for s in b.succs(x):
-                if (x, s) in true_edges:
-                    continue
-                st.append(s)
+        for (cb, ce, sw, tt, ff) in guards:
+            region |= b.reachable_cp(ff, without_edge=frozenset(true_edges))
         # exclude the guard evaluation blocks themselves
         dec_calls = [blk for blk, t, c in b.calls() if blk in region and c is not None and c.local and decoder_of(c.path)]
         wr = sorted(region & write_blocks.get(path, set()))
